@@ -397,6 +397,9 @@ func (w *world) cancelID(id int, fromCallback bool) string {
 		}
 		w.fail("cancel-result", fmt.Sprintf("Cancel(%d) returned true but the queue size stayed %d while all workers were blocked in callbacks: the task was not pending (max size %d)", id, sizeAfter, w.m),
 			map[string]string{"oracle": "cancel-true-nothing-pending", "trigger": trig})
+	case !got && exp != nil && w.m > 0 && w.overflw > 0:
+		// the size bound may have dropped the task (the queue marks it as canceled, Cancel reports false); which
+		// element was dropped is decided by the heap layout, i.e. by the differential run, not by this oracle
 	case !got && exp != nil:
 		trig := "pending"
 		if exp.fromCallback {
